@@ -38,6 +38,8 @@ def C04(tier):
         bjob('mutex.lock2.r4', src, ['t0', 't1'], 4, ['-DVN=2', '-DMODE=0']),
         bjob('mutex.trylock.r3', src, ['t0', 't1'], 3, ['-DVN=2', '-DMODE=1']),
         bjob('mutex.holder_never_unlocks.r3', src, ['t0', 't1'], 3, ['-DVN=2', '-DMODE=2'], extra_cfg=dict(allow_deadlock=True)),
+        ajob('mutex.timedlock.k4', 'harness/C20_time.c', ['-DSCEN=3', '-DKMAX=4'], unwind=7, replace_calls=['myth_yield_ex_body:stub_yield_ex'], timeout=600,
+             bounds=dict(clock='arbitrary non-decreasing readings, deadline passed by the 4th', other_threads='lock/unlock the mutex arbitrarily during each yield')),
     ]
     if tier == 'thorough':
         jobs += [
@@ -55,7 +57,9 @@ def C05(tier):
     def cj5(name, threads, rounds, defs, **kw): return lambda n, **k2: bjob(n, src, threads, rounds, defs, **dict(kw, **k2))
     jobs = [bjob('cond.signal.w1.r3', src, ['t0', 't1'], 3, ['-DVN=2', '-DMODE=0']),
             bjob('cond.broadcast.w1.r3', src, ['t0', 't1'], 3, ['-DVN=2', '-DMODE=1']),
-            bjob('cond.signal_noop', 'harness/C05_signal_noop.c', ['t0', 't1'], 1, [])]
+            bjob('cond.signal_noop', 'harness/C05_signal_noop.c', ['t0', 't1'], 1, []),
+            bjob('cond.signal_vs_busy_queue.r3.all', src, ['t0', 't1', 't2'], 3, ['-DVN=3', '-DMODE=4'], preempt='all', special={}, delete=['empty_loop', 'myth_get_current_env', 'myth_get_current_env_noinline'],
+                 note='real spinlock code (no atomic-lock model) so that a waker can observe the queue lock held by another waker')]
     if tier == 'thorough':
         jobs += [bjob('cond.signal.w1.r4', src, ['t0', 't1'], 4, ['-DVN=2', '-DMODE=0'], timeout=7200, mem_gb=12),
                  bjob('cond.broadcast.w1.r4', src, ['t0', 't1'], 4, ['-DVN=2', '-DMODE=1'], timeout=7200, mem_gb=12),
@@ -71,6 +75,9 @@ def C06(tier):
         bjob('barrier.n2.k1.r3', src, ['t0', 't1'], 3, ['-DVN=2', '-DROUNDS=1'], preempt='sync'),
         bjob('barrier.n2.k1.r3.all', src, ['t0', 't1'], 3, ['-DVN=2', '-DROUNDS=1'], preempt='all'),
     ]
+    NW = 64 if tier == 'quick' else 256
+    jobs.append(ajob('barrier.release_step.n%d' % NW, 'harness/C06_wake_step.c', ['-DNMAX=%d' % NW, '-DKIND=0'], unwind=NW + 4, timeout=7200, mem_gb=16, extra=['--object-bits', '12', '--max-field-sensitivity-array-size', '2000'],
+                     replace_calls=['myth_sleep_stack_pop:stub_pop', 'myth_queue_push:stub_push'], bounds=dict(sleepers='every n in [0,%d]' % NW, step='one call of myth_wake_many_from_stack')))
     if tier == 'thorough':
         jobs += [
             bjob('barrier.n2.k2.r6', src, ['t0', 't1'], 6, ['-DVN=2', '-DROUNDS=2'], timeout=14000, mem_gb=16),
@@ -86,6 +93,10 @@ def C07(tier):
         bjob('jc.d1.w1.r3', src, ['t0', 't1'], 3, ['-DVN=2', '-DNDEC=1', '-DMODE=1']),
         bjob('jc.d2.w1.r3', src, ['t0', 't1', 't2'], 3, ['-DVN=3', '-DNDEC=2', '-DMODE=0']),
         Job('jc.bits', 'A', src='harness/C07_bits.c', cbmc=['--unwind', '65'], bounds=dict(n_threads='all values in [0, 2^62)', unwind=65), timeout=900),
+        ajob('jc.release_step.n%d' % (64 if tier == 'quick' else 256), 'harness/C06_wake_step.c', ['-DNMAX=%d' % (64 if tier == 'quick' else 256), '-DKIND=1'], unwind=(64 if tier == 'quick' else 256) + 4, timeout=7200, mem_gb=16, extra=['--object-bits', '12', '--max-field-sensitivity-array-size', '2000'],
+             replace_calls=['myth_sleep_queue_deq:stub_deq', 'myth_queue_push:stub_push'], bounds=dict(waiters='every n in [0,%d]' % (64 if tier == 'quick' else 256), step='one call of myth_wake_many_from_queue')),
+        ajob('jc.step', 'harness/C07_step.c', [], unwind=34, timeout=900, replace_calls=['myth_wake_many_from_queue:stub_wake_many', 'myth_block_on_queue:stub_block'],
+             bounds=dict(n_threads='every N in [1, 2^31)', waiters='every count in [0, 2^30)', step='one dec or one wait from an arbitrary packed state')),
     ]
     if tier == 'thorough':
         jobs += [
@@ -111,11 +122,13 @@ def C08(tier):
 def C09(tier):
     src = 'harness/C09_felock.c'
     jobs = [
-        bjob('felock.p1c1.i1.r3', src, ['t0', 't1'], 3, ['-DNP=1', '-DNC=1', '-DITEMS=1']),
-        bjob('felock.p1c1.i1.r3.all', src, ['t0', 't1'], 3, ['-DNP=1', '-DNC=1', '-DITEMS=1'], preempt='all', timeout=2400),
+        bjob('felock.p1c1.i1.r2', src, ['t0', 't1'], 2, ['-DNP=1', '-DNC=1', '-DITEMS=1']),
+        bjob('felock.plainlock_vs_status.r3', src, ['t0', 't1'], 3, ['-DNP=1', '-DNC=1', '-DITEMS=1', '-DPLAINLOCK=1']),
     ]
     if tier == 'thorough':
-        jobs += [bjob('felock.p1c1.i1.r4', src, ['t0', 't1'], 4, ['-DNP=1', '-DNC=1', '-DITEMS=1'], timeout=14000, mem_gb=16),
+        jobs += [bjob('felock.p1c1.i2.r2', src, ['t0', 't1'], 2, ['-DNP=1', '-DNC=1', '-DITEMS=2'], timeout=14000, mem_gb=16),
+                 bjob('felock.p1c1.i1.r3', src, ['t0', 't1'], 3, ['-DNP=1', '-DNC=1', '-DITEMS=1'], timeout=14000, mem_gb=16),
+                 bjob('felock.p1c1.i1.r4', src, ['t0', 't1'], 4, ['-DNP=1', '-DNC=1', '-DITEMS=1'], timeout=20000, mem_gb=16),
                  bjob('felock.p1c1.i2.r4', src, ['t0', 't1'], 4, ['-DNP=1', '-DNC=1', '-DITEMS=2'], timeout=14000, mem_gb=16),
                  bjob('felock.p2c1.i1.r3', src, ['t0', 't1', 't2'], 3, ['-DNP=2', '-DNC=1', '-DITEMS=1'], timeout=14000, mem_gb=16),
                  bjob('felock.p1c2.i2.r3', src, ['t0', 't1', 't2'], 3, ['-DNP=1', '-DNC=2', '-DITEMS=2'], timeout=14000, mem_gb=16)]
@@ -180,6 +193,9 @@ def C10(tier):
             ajob('keyalloc.seq.a5', 'harness/C10_keyalloc_seq.c', ['-DKA_A=5', '-DKA_B=63'], unwind=6, timeout=900, cfg=KEYTAB64, bounds=dict(key_table='scaled to 64 cells by patching the enumerator myth_tls_tree_depth 3 -> 1 in the preprocessed copy (the allocator code is unchanged and parametric in the table size; the full 16 KB table ran the SAT instance out of memory)', state='free list [5,63], all other cells live; deleted key symbolic over {5, 1023, any out-of-range int}; 6 operations')),
             ajob('keyalloc.seq.a0', 'harness/C10_keyalloc_seq.c', ['-DKA_A=0', '-DKA_B=17'], unwind=6, timeout=900, cfg=KEYTAB64, bounds=dict(key_table='scaled to 64 cells (see keyalloc.seq.a5)', state='free list [0,17]; deleted key symbolic over {0, 256, any out-of-range int}'))]
     if tier == 'thorough':
+        jobs.append(bjob('keyalloc.conc.r4', 'harness/C10_keyalloc_conc.c', ['t0', 't1'], 4, ['-DMODE=1'], preempt='all', delete=['empty_loop'], special={},
+                         extra_cfg=dict(env_model=None, text_patches=KEYTAB64['text_patches']), unwind=66, timeout=2400,
+                         bounds=dict(key_table='scaled to 64 cells (enumerator patch, see keyalloc.seq.a5)', threads='T0: create, create; T1: create, create, delete, create')))
         jobs += [ajob('tree.k3', 'harness/C10_tree.c', ['-DNK=3', '-DNPOOL=13'], unwind=18, timeout=7200, mem_gb=24, bounds=dict(keys='3 stored keys + 1 queried key'))]
     return dict(jobs=jobs, assumptions=A_ASSUME + ['tree nodes come from typed static pools standing for real_malloc'],
                 functions=['myth_tls_tree_get', 'myth_tls_tree_set', 'myth_tls_tree_init', 'myth_tls_key_allocator_alloc', 'myth_tls_key_allocator_dealloc'])
